@@ -46,15 +46,16 @@ LEVEL = {
 BY_CONTRACT = {
     "_core.Awaitify.__call__": "the awaitify wrapper itself: inspects the result of the first call",
     "_core.force_async": "coroutine wrapper built by awaitify for callables known to be synchronous",
-    "_lrucache.UncachedLRUAsyncCallable.__call__": "lru_cache wraps callables documented to return an awaitable",
-    "_lrucache.MemoizedLRUAsyncCallable.__call__": "lru_cache wraps callables documented to return an awaitable",
-    "_lrucache.CachedLRUAsyncCallable.__call__": "lru_cache wraps callables documented to return an awaitable",
+    # a class name covers every method of the class (the contract is about the wrapped object)
+    "_lrucache.UncachedLRUAsyncCallable": "lru_cache wraps callables documented to return an awaitable",
+    "_lrucache.MemoizedLRUAsyncCallable": "lru_cache wraps callables documented to return an awaitable",
+    "_lrucache.CachedLRUAsyncCallable": "lru_cache wraps callables documented to return an awaitable",
     "asynctools.apply": "apply's function is documented synchronous; only its arguments are awaited",
     "asynctools.sync": "sync() implements the same rule inline (isinstance(result, Awaitable))",
     "contextlib.ContextDecorator.__call__": "decorated function is a coroutine function by contract",
     "contextlib._AsyncGeneratorContextManager.__init__": "contextmanager wraps an async generator function by contract",
     "contextlib.ExitStack.__aexit__": "registered exits are awaitified, or __aexit__ methods documented to be awaitable",
-    "functools._FutureCachedPropertyValue._get_attribute": "cached_property accepts coroutine functions only (checked at decoration)",
+    "functools._FutureCachedPropertyValue": "cached_property accepts coroutine functions only (checked at decoration)",
     "functools.CachedProperty.__get__": "instantiates the user's lock *type* (a synchronous constructor)",
     "_utility.public_module": "string method, not a user callable",
 }
@@ -81,10 +82,10 @@ def run(ctx) -> None:
     r03_2(ctx)
     r03_3(ctx)
     r03_4(ctx)
-    ctx.floor("awaitified_calls", 14)
-    ctx.floor("awaitify_sites", 15)
-    ctx.floor("iterable_params", 35)
-    ctx.floor("public_names", 45)
+    ctx.floor("awaitified_calls", 8)
+    ctx.floor("awaitify_sites", 10)
+    ctx.floor("iterable_params", 25)
+    ctx.floor("public_names", 40)
 
 
 # --------------------------------------------------------------------------- call-site bindings
@@ -186,8 +187,10 @@ def r03_1(ctx) -> None:
                 outer = u
                 while outer.parent is not None:
                     outer = outer.parent  # nested wrappers are covered by their enclosing definition
-                if outer.short in BY_CONTRACT:
-                    ctx.ok("R03.1", u, f"raw call `{norm(call.func)}(...)` is by contract: {BY_CONTRACT[outer.short]}")
+                contract = BY_CONTRACT.get(outer.short) or (
+                    BY_CONTRACT.get(f"{outer.module.short}.{outer.cls.name}") if outer.cls is not None else None)
+                if contract:
+                    ctx.ok("R03.1", u, f"raw call `{norm(call.func)}(...)` is by contract: {contract}")
                 else:
                     ok = True
                     for a in raw:
